@@ -67,8 +67,8 @@ def run(c: Check):
     out2, _ = c.go_harness("internal/dnsserver", "^TestVerifC08Sock$", files=["c08_test.go", "c08sock_test.go", "vlab_test.go"],
                            env={"VERIF_SOCK_N": n_sock}, timeout=1500)
     ev2 = read_ndjson(out2)
-    if len(ev) < n_pkg or len(ev2) < n_sock + 6:
-        raise Undecided("harness recorded %d + %d cases, expected %d + %d" % (len(ev), len(ev2), n_pkg, n_sock + 6))
+    if len(ev) < n_pkg or len(ev2) < n_sock + 9:
+        raise Undecided("harness recorded %d + %d cases, expected %d + %d" % (len(ev), len(ev2), n_pkg, n_sock + 9))
     allev = ev + ev2
 
     # ---- vacuity: every class the property quantifies over must have been exercised
@@ -90,7 +90,8 @@ def run(c: Check):
     if not any(e["pad"] for e in allev) or not any(e["ka"] for e in allev):
         raise Undecided("no padded / no keep-alive reply seen at all")
     for e in ev2:
-        if not e["sent"] and e["hlen"] < e["_limit"] - 300:
+        # controls: a tiny answer to a plain query can only get lost in the laboratory
+        if not e["sent"] and e["hlen"] <= 300 and e["req"]["nsidlen"] <= 4:
             raise Undecided("socket level: small reply lost on %s (%s, note %r): laboratory problem" % (
                 e["via"], e["name"], e["note"]))
     answered = sum(1 for e in ev2 if e["sent"])
